@@ -300,10 +300,27 @@ PROPS = {
         "technique": "Lean 4 theorem on the owner path of the authority model + kernel-checked regenerated mapping facts + fork differential (native message vs precompile call) with key-by-key store comparison",
         "explanation": "Owner path proved to be the native message; argument mapping and message-server hand-off regenerated from the source and pinned; delegate / undelegate / redelegate / cancelUnbondingDelegation / setWithdrawAddress / withdrawDelegatorRewards run on twin forks of growing states with boundary amounts, unknown validators, blocked and module withdraw addresses, pending rewards; staking and bank precompile queries compared with module answers.",
     },
+    "C10": {
+        "id": "C10",
+        "lean_modules": ["HaqqModel.Props.C10"],
+        "level": "proof",
+        "trusted_base": COMMON_TRUST + [
+            "modelled, not verified: the honest token contract (ERC20MinterBurnerDecimals: transfer / mint / burn as balance arithmetic), the bank keeper's escrow / mint / burn / send, the EVM executing the token; adversarial token contracts are outside the model — their effect on the real keeper is observed by the correspondence run only",
+            "not covered: the IBC receive / acknowledgement / timeout callbacks (they need an IBC channel; they call the same ConvertCoin / ConvertERC20 the run exercises)",
+        ],
+        "assumptions": [
+            "one denomination / one pair at a time (pairs do not interact)",
+            "the module account is not a user: conversions from or to it are refused (it is a blocked address)",
+        ],
+        "level_text": "Machine-checked proofs (Lean 4) over a model of one token pair with an honest token contract: every history of MsgConvertCoin / MsgConvertERC20 in both ownership modes, ERC20 transfers with the PostTxProcessing hook, holder burns, owner mints, toggles and the bank MsgSend wrapper keeps the backing (in)equation; a coin-origin pair is backed exactly while no holder burns; an accepted conversion moves the same amount on both sides and a refused one changes nothing; a kernel-checked counterexample shows what a forged Transfer log does to an ERC20-origin pair. Tied to the real keepers by an exact differential run through the application's message router and the EVM keeper (hooks included), which also exercises the repository's malicious tokens and a log-forging token.",
+        "level_note": "Trusted: Lean kernel; correspondence harness; honest token and bank semantics modelled; adversarial tokens observed, not modelled; IBC callbacks not run.",
+        "technique": "Lean 4 invariant proof by induction over op sequences + differential correspondence on the real application + adversarial-token monitors",
+        "explanation": "Backing invariant proved for all histories of the honest model; coin-origin and ERC20-origin pairs registered per case on the real application and driven with conversions, hook transfers, burns, mints, toggles and wrapped bank sends, six quantities compared with the model after every op; malicious and log-forging tokens registered and monitored.",
+    },
 }
 
 # properties not (yet) claimed, each with a reason; entries disappear as checks are built
 NOT_APPLICABLE = {pid: "check not built yet in this session (planned: see DESIGN.md §5)" for pid in
-                  ["C03", "C10"]}
+                  ["C03"]}
 
 HOOK_COMMITS = []
